@@ -1,5 +1,5 @@
 CONSTANT MaxLen = 4
-CONSTANT Sig = {49, 46, 69, 68, 101, 65, 71, 79, 84, 34, 39, 60, 61, 62, 32, 38, 33}
+CONSTANT Sig = {49, 46, 69, 68, 101, 65, 71, 79, 84, 34, 39, 60, 61, 62, 32, 38, 33, 63, 58}
 INIT Init
 NEXT Next
 INVARIANT ModelRoundTrip
